@@ -2,6 +2,7 @@ import StatimeModel.Model.TimeDriver
 import StatimeModel.Model.WireDriver
 import StatimeModel.Model.PortDriver
 import StatimeModel.Model.Overlay
+import StatimeModel.Model.ServoDriver
 /-
 model-driver: line protocol, ops in (stdin), canonical observations out (stdout).
 One output line per input line (multi-part outputs are joined with " ; ").
@@ -11,6 +12,7 @@ open Statime
 structure DState where
   inst : Option Inst := none
   ovl : Option OvlState := none
+  filt : Servo.Filt := .none
 
 def stepLine (st : DState) (line : String) : DState × String :=
   match words line with
@@ -20,6 +22,9 @@ def stepLine (st : DState) (line : String) : DState × String :=
   | "OVL" :: rest =>
     let (o, out) := ovlLine st.ovl rest
     ({ st with ovl := o }, out)
+  | "FLT" :: rest =>
+    let (f, out) := Servo.filtLine Servo.machine st.filt rest
+    ({ st with filt := f }, out)
   | [] => (st, "bad-op")
   | ws =>
     let (i, o) := instLine st.inst ws
